@@ -32,6 +32,16 @@ def check(tier, seed, replay=None):
     # (the grid has 5 points per IMAGE column - split halves, slacks, surpluses -: that is what a chunk costs)
     cost = [5 ** min(9, len(e["std"]["vars"])) if e.get("out") == "ok" and "std" in e else 1 for e in events]
     v = core.validate(SPEC_DIR, "StdFormTrace.tla", "StdFormTrace.cfg", events, prop, prop, chunks=12, cost=cost)
+    # design level: the transcription of the algorithm (StdForm.tla) on every small model, judged by the same StdCorr operators
+    design = {}
+    if not replay:
+        for cfg in (("MC_s.cfg",) if tier == "quick" else ("MC_q.cfg", "MC_q2.cfg")):
+            rc, out = core.run_tlc(SPEC_DIR, "MCStdForm.tla", cfg, workers=8, tag="mcstd", xmx="8g")
+            g, dst = core.tlc_counts(out)
+            if rc != 0:
+                core.log(out[-3000:])
+                raise core.ToolError(f"design-level model check {cfg} failed (specification error, not an implementation verdict)")
+            design[cfg] = {"states": dst, "transitions": g}
     byid = {e["id"]: e for e in events}
     for r in v.rejects:
         ev = byid.get(r[2], {})
@@ -46,13 +56,14 @@ def check(tier, seed, replay=None):
             samples.append({"id": e["id"], "model": {k: e[k] for k in ("sense", "obj", "off", "vars", "rows")}, "standard_form": e["std"]["text"]})
     o.level = "model_checking"
     o.coverage = {
-        "states": v.distinct + sum(m.get("gen_states", 0) for m in meta.values()),
-        "transitions": v.generated + sum(m.get("gen_transitions", 0) for m in meta.values()),
+        "states": v.distinct + sum(m.get("gen_states", 0) for m in meta.values()) + sum(x["states"] for x in design.values()),
+        "transitions": v.generated + sum(m.get("gen_transitions", 0) for m in meta.values()) + sum(x["transitions"] for x in design.values()),
+        "design_model_check": design,
         "traces_validated_against_impl": len(ok),
         "samples": samples or [{"note": "none"}],
         "evaluations": sum(s[3] for s in ok),
         "distinct_nontrivial": nontrivial,
-        "rule": "one event = (linear model, real standard form); evaluations = grid assignments of the image columns judged"
+        "rule": "one event = (linear model, real standard form); each judged exactly (both inclusions of the feasible polyhedra and the objective on them, by Fourier-Motzkin) and on a grid; evaluations = grid assignments of the image columns judged"
                 " in both directions; non-trivial = conversion with both feasible and infeasible grid points",
         "exhaustive": tier == "thorough" and not replay,
         "rejected_non_continuous": sum(1 for s in v.stats if s[2] == "rejected"),
@@ -60,6 +71,6 @@ def check(tier, seed, replay=None):
         "unverifiable_overflow": v.overflow_ids[:10],
         "unverifiable_overflow_count": len(v.overflow_ids),
     }
-    o.assumptions = ["points are sampled on the grid {0,1/2,1,2,3} per image column (both halves of a split independently)",
+    o.assumptions = ["the exact comparison needs the model's numbers to fit 32-bit integer arithmetic (otherwise the event is counted unverifiable); the grid {0,1/2,1,2,3} per image column is judged as well",
                      "hook H2 accessors return the fields of StandardLinearModel unchanged"]
     return o.finish()
